@@ -25,7 +25,7 @@ from ..kernel import h64, stream
 
 PROPS = ["C07", "C10"]
 CUTTERS = ["BsaI", "BsmBI", "BpiI", "BbsI", "SapI"]
-EXC_KINDS = ["InjectedFault", "MemoryError", "OSError", "InvalidSequence", "KeyError"]
+EXC_KINDS = ["InjectedFault", "MemoryError", "OSError", "InvalidSequence", "KeyError", "KeyboardInterrupt"]
 ELEMENT_METHODS = ["overhang_start", "overhang_end", "target_sequence"]
 
 W = {}
@@ -314,6 +314,10 @@ def _make_exc(kind, where):
         return OSError(5, "injected at %s" % where)
     if kind == "KeyError":
         return KeyError("injected at %s" % where)
+    if kind == "KeyboardInterrupt":
+        # the user interrupts a long assembly and carries on with the same objects: the call
+        # "raises", and the statement covers that ("returns, warns or raises")
+        return KeyboardInterrupt("injected at %s" % where)
     if kind == "InvalidSequence":
         from moclo import errors
 
@@ -506,6 +510,11 @@ def do_assemble(env, op, fault):
                 env["last_product"] = prod
             except Exception as exc:
                 out = canon_exception(exc, env)
+                env["last_product"] = None
+            except KeyboardInterrupt as exc:
+                if "injected at" not in str(exc):
+                    raise
+                out = {"exc": "KeyboardInterrupt", "msg": str(exc)[:160]}
                 env["last_product"] = None
         ws = []
         for w in wlist:
